@@ -62,6 +62,10 @@ def const_name(v: int) -> str:
 
 
 CONST_HEADER = "".join(f"KP{v} = {v}\nKN{v} = {-v}\n" for v in range(0, 10))
+# Module-level ints that merely share their NAME with the tensor parameters p0, p1, … of the generated
+# functions (a left-over loop variable, a default): a parameter shadows them, so they must never
+# influence the translation.
+CONST_HEADER += "".join(f"p{j} = {v}\n" for j, v in enumerate([1, 0, 2, 1, 0, 1, 2, 0, 1, 1]))
 
 
 def model_comp(c: str) -> str:
@@ -599,6 +603,23 @@ def main(run: core.Run) -> None:
     if run.replay_path:
         body = json.loads(open(run.replay_path).read())
         cases = [body["case"]["case"]] if "case" in body.get("case", {}) else []
+        if cases and "family" in cases[0]:
+            from harness import c11_multi
+
+            fc = cases[0]
+            rec2 = _Recorder()
+            if fc["family"] == "scoped":
+                fam = c11_multi.check_scoped(run.rng, 0, _session_options, rec2, stats,
+                                             items=c11_multi.items_from_source(fc["source"]))
+            else:
+                fam, _ = c11_multi.check_bad_dtype(run.rng, _session_options, rec2, stats, lambda c, m: None,
+                                                   only=(fc["form"], fc["k_dtype"], fc["k"]))
+            for c, mode, detail in fam:
+                print(f"REPLAY property {mode}: {detail}")
+            if fam:
+                run.violation({"case": fc, "problems": [p[2] for p in fam]}, "replayed case still fails")
+            run.coverage.update(evaluations=1, distinct_nontrivial=1)
+            return
         probs = check_cases(run, drv, cases, stats)
         for c, mode, kind, detail in probs:
             print(f"REPLAY {kind} {mode}: {case_line(mode, c)} :: {detail}")
@@ -653,8 +674,30 @@ def main(run: core.Run) -> None:
     for c in list(seen)[:6]:
         run.sample(c)
 
-    # ---- verdict
+    # ---- directed families beyond a single subscript (oracle only, see harness/c11_multi.py)
+    from harness import c11_multi
+
     findings = {f["id"]: f for f in run.open_findings()}
+    rec2 = _Recorder()
+    family_failures = c11_multi.check_scoped(run.rng, run.size(120, 800), _session_options, rec2, stats)
+
+    def bad_dtype_known(case, mode):
+        # C11-N2 (repaired by 46aa4ab): while it was open, eager mode converting a non-integer rank-0
+        # tensor index was a known finding; a fixed entry suppresses nothing
+        comps_ = case["form"][2:-1].split(", ")
+        if mode == "eager" and "k" in comps_ and len(comps_) > 1 and "C11-N2" in findings:
+            return "C11-N2"
+        return None
+
+    bad_probs, bad_known = c11_multi.check_bad_dtype(run.rng, _session_options, rec2, stats, bad_dtype_known)
+    family_failures += bad_probs
+    for fid, case_, mode_, detail_ in bad_known[:1]:
+        run.known(fid, detail_)
+    stats["known_C11-N2"] = len(bad_known)
+    if family_failures:
+        run.sample(family_failures[0][0])
+
+    # ---- verdict
     known_counts: Counter = Counter()
     tie_broken = []
     prop_failures = []
@@ -672,6 +715,13 @@ def main(run: core.Run) -> None:
     stats["known_D22"] = known_counts["D22"]
     stats["known_C11-N1"] = known_counts["C11-N1"]
 
+    if family_failures:
+        case_, mode_, detail_ = family_failures[0]
+        run.violation(
+            {"case": case_, "mode": mode_, "detail": detail_, "others": len(family_failures) - 1},
+            f"{mode_} front end, family {case_['family']}: {detail_}"
+            + (" :: " + case_["source"].replace("\n", " | ") if "source" in case_ else ""),
+        )
     if prop_failures:
         prop_failures.sort(key=lambda p: (len(p[0]["comps"]), sum(p[0]["shape"]), len(str(p[0]))))
         c, mode, detail = prop_failures[0]
